@@ -50,6 +50,10 @@ theorem push_str_good {ocf base st hp r t} (g : Good ocf base st hp r t) (rf : R
     resOf (GenRepr.Repr.push_str ⟨s⟩ ⟨rf, st, hp, r⟩) = pushStr rf st hp r s :=
   push_str_tie ⟨s⟩ ⟨rf, st, hp, r⟩ (dataOk_of_good g) (rawOk_of_good g) (sat_not_ub (pushStr_sat g rf s hs))
 
+theorem push_str_norm_good {ρ' : Type} {ocf base st hp r t} (g : Good ocf base st hp r t) (rf : Refuse) (s : Bytes) (hs : Valid s) :
+    (norm (GenRepr.Repr.push_str ⟨s⟩ ⟨rf, st, hp, r⟩) : Step ρ' (Rs Unit)) = stepOfRes rf st (pushStr rf st hp r s) :=
+  push_str_norm ⟨s⟩ ⟨rf, st, hp, r⟩ (dataOk_of_good g) (rawOk_of_good g) (sat_not_ub (pushStr_sat g rf s hs))
+
 theorem pop_good {ocf base st hp r t} (g : Good ocf base st hp r t) (rf : Refuse) :
     resOfOptChr (GenRepr.Repr.pop ⟨rf, st, hp, r⟩) = pop st hp r :=
   pop_tie ⟨rf, st, hp, r⟩ (dataOk_of_good g) (rawOk_of_good g) (by
